@@ -10,7 +10,14 @@ except Exception as e:
 es = json.load(open('/root/.vp/EVIDENCE.schema.json'))
 for f in sorted(glob.glob('/verif/evidence/*.json')):
     try:
-        jsonschema.validate(json.load(open(f)), es); print(f, 'valid')
+        ev = json.load(open(f))
+        jsonschema.validate(ev, es)
+        cov = ev.get('coverage', {})
+        if 'obligations' in cov and cov.get('discharged') != cov.get('obligations'):
+            raise ValueError('coverage.discharged (%s) != obligations (%s): the record is not of a run on the unchanged tree' % (cov.get('discharged'), cov.get('obligations')))
+        if ev.get('outcome', ev.get('result')) not in (None, 'held', 'pass', 'passed', 'holds'):
+            pass
+        print(f, 'valid')
     except Exception as e:
         ok = False; print(f, 'INVALID', str(e)[:500])
 sys.exit(0 if ok else 1)
